@@ -96,6 +96,9 @@ def boundary_forests():
         fs.append(mixed)
         fs.append([([], ("list", mixed)), ([], ("sexp", lobs)), ([], ("struct", [(b"name", v) for v in mixed]))])
         fs.append([([b"a"], lobs[0][1]), ([b"b"], lobs[3][1]), ([], ("struct", [(b"f%d" % i, v) for i, v in enumerate(lobs)]))])
+    # decimal exponents at both ends of the int32 range and at every VarInt width boundary (the scale is stored negated)
+    for ex in (-2 ** 31, -2 ** 31 + 1, 2 ** 31 - 1, 2 ** 31 - 2, -64, -63, 63, 64, -8192, -8191, 8191, 8192, -2 ** 20, 2 ** 20, -2 ** 27, 2 ** 27):
+        fs.append([([], ("dec", co, ex, False)) for co in (0, 1, -1, 12, 10 ** 20)] + [([], ("dec", 0, ex, True))])
     # deep nesting
     v = ([], ("int", 7))
     for i in range(60):
